@@ -119,6 +119,28 @@ def handle (line : String) : String :=
           else if nanTaint then s!"undef | {d.num}/{d.den} {e}"
           else s!"ok {showOptVals vals} | {d.num}/{d.den} {e}"
       | _, _, _, _ => "bad-input"
+  | "parse" :: unit :: consts :: hex :: _ =>
+      -- front end: text is hex-encoded UTF-8; consts: `K=2.0,J=3`
+      let bytes : Option (List UInt8) :=
+        let cs := hex.toList
+        if cs.length % 2 != 0 then none else
+        (List.range (cs.length / 2)).mapM (fun i => do
+          let a ← Front.digitVal (cs.getD (2 * i) '0')
+          let b ← Front.digitVal (cs.getD (2 * i + 1) '0')
+          pure (UInt8.ofNat (a * 16 + b)))
+      let cl : List (String × String) := ((consts.splitOn ",").filter (· ≠ "")).filterMap (fun (kv : String) =>
+        match kv.splitOn "=" with | [k, v] => some (k, v) | _ => none)
+      match parseUnit unit, bytes with
+      | some u, some bs =>
+          match String.fromUTF8? (ByteArray.mk bs.toArray) with
+          | some text =>
+              match Front.parseAndCheck cl u text with
+              | .ok spec => "ok " ++ spec.str
+              | .error (.lex c) => s!"err rtamt lex {c.toNat}"
+              | .error (.syntax k) => s!"err rtamt syntax {k}"
+              | .error (.semantic m) => s!"err rtamt semantic {m}"
+          | none => "bad-input"
+      | _, _ => "bad-input"
   | "ia" :: sem :: inputs :: f :: _ =>
       -- the IA predicate override as a formula transformation
       let sm : Option Sem := match sem with
